@@ -95,6 +95,28 @@ theorem c04_t_calcChunkSize (docs : List (List Int)) (prev maxFetch : Nat)
 /-- non-vacuity: the historical witnesses of the old sizing are inside the domain and size to at least one -/
 example : T.docsStream_calcChunkSize [[1, 2], [], []] 1000 4194304 = some 4194304 := by rfl
 
+/-- `docsStream.batchLoader`: the chunk is the first `min(len(ids), chunkSize)` ids and the rest follows it -
+`FetchStream.batchLoader`'s `ids.take size` / `ids.drop size` (a non-negative chunk size: `c04_t_calcChunkSize` is ≥ 1) -/
+theorem c04_t_batch_cut {I : Type} (ids : List I) (size : Nat) :
+    T.cutChunk ids size = some (ids.take size) ∧ T.restIDs ids size = some (ids.drop size) := by
+  unfold T.cutChunk T.restIDs len
+  have hm : min (ids.length : Int) (size : Int) = ((min ids.length size : Nat) : Int) := by omega
+  simp only [hm]
+  have g1 : ¬ ¬ ((0 : Int) ≤ 0 ∧ (0 : Int) ≤ ((min ids.length size : Nat) : Int) ∧ ((min ids.length size : Nat) : Int) ≤ (ids.length : Int)) := by omega
+  have g2 : ¬ ¬ ((0 : Int) ≤ ((min ids.length size : Nat) : Int) ∧ ((min ids.length size : Nat) : Int) ≤ (ids.length : Int)
+      ∧ (ids.length : Int) ≤ (ids.length : Int)) := by omega
+  constructor
+  · rw [if_neg g1, slice_to]
+    congr 1
+    rw [Nat.min_comm, ← List.take_take]; simp
+  · rw [if_neg g2]
+    have : slice ids ((min ids.length size : Nat) : Int) (ids.length : Int) = ids.drop (min ids.length size) := slice_from ids _
+    rw [this]
+    congr 1
+    by_cases h : size ≤ ids.length
+    · rw [Nat.min_eq_right h]
+    · rw [Nat.min_eq_left (by omega), List.drop_of_length_le (by omega), List.drop_of_length_le (by omega)]
+
 /-- `metaDataCollector.Filter`'s recomputed MID range: `Fetch.filterStats` is the fold of the two translated per-ID
 updates (`if id.MID < c.MinMID {..}`, `if id.MID > c.MaxMID {..}`) over the kept IDs, from the translated start values
 (`c.MinMID = math.MaxUint64`, `c.MaxMID = 0`, whatever the collector held before) -/
